@@ -471,6 +471,18 @@ func run(c *Ctx) error {
 			return err
 		}
 	}
+	// ---- gudpmux: host candidates from a UDP mux
+	nMux := 30
+	if !quick {
+		nMux = 1000
+	}
+	fx := detectUDPMuxFixed()
+	c.Count("udpmux-variant:family_gate=" + B(fx))
+	for i := 0; i < nMux; i++ {
+		if err := runCase(c, genUDPMux(c, fx)); err != nil {
+			return err
+		}
+	}
 	// ---- stale: a Restart placed exactly between addCandidate's ctx.Err() check and loop.Run's select
 	nStale := 3
 	if !quick {
@@ -505,6 +517,8 @@ func runCase(c *Ctx, t []string) error {
 		runGather(c, t)
 	case "gmapped":
 		runMapped(c, t)
+	case "gudpmux":
+		runUDPMux(c, t)
 	case "cycle":
 		runCycle(c, t)
 	case "stale":
@@ -593,6 +607,7 @@ type gcase struct {
 	muxport              int
 	rows                 []ifRow
 	rules                []ice.AddressRewriteRule // only in "gmapped" cases
+	udpmux               []net.Addr               // only in "gudpmux" cases: listen addresses of a (fake) UDP mux
 }
 
 func (g gcase) toks() []string {
@@ -1015,6 +1030,9 @@ func newAgent(g gcase) (*ice.Agent, *agentEnv, error) {
 	}
 	if len(g.rules) > 0 {
 		opts = append(opts, ice.WithAddressRewriteRules(g.rules...))
+	}
+	if len(g.udpmux) > 0 {
+		opts = append(opts, ice.WithUDPMux(gf.NewUDPMux(g.udpmux)))
 	}
 	a, err := ice.NewAgentWithOptions(opts...)
 
@@ -1653,6 +1671,141 @@ func detectSkipUnspec() bool {
 	rows := []ifRow{{"eth0", true, false, [][]byte{ip4(10, 9, 9, 9)}}}
 	g := gcase{variant: "000", api: "o", ct: []int{2}, nt: []int{1}, iff: "-", ipf: "-", rows: rows,
 		rules: iceRules([]mrule{{local: "10.99.99.99", ext: []string{"203.0.113.9"}}})}
+	a, _, err := newAgent(g)
+	if err != nil {
+		return true
+	}
+	pub := &published{nilCh: make(chan struct{}, 4)}
+	_ = a.OnCandidate(pub.handler)
+	if a.GatherCandidates() == nil {
+		select {
+		case <-pub.nilCh:
+		case <-time.After(10 * time.Second):
+		}
+	}
+	pub.mu.Lock()
+	defer pub.mu.Unlock()
+	defer a.Close() //nolint:errcheck
+
+	return len(pub.cands) == 0
+}
+
+// ---------------------------------------------------------------- gudpmux
+
+// gudpmux FIX NT LO MDNS MNAME ADDRS  =>  RET STATE NILS ; P cand* ; L cand* ; S sock*
+// ADDRS: comma separated <hex ip>:<port>, the listen addresses of the UDP mux, in order
+func muxAddrsTok(as []net.Addr) string {
+	var out []string
+	for _, a := range as {
+		u := a.(*net.UDPAddr) //nolint:forcetypeassert
+		out = append(out, hex.EncodeToString(canon(u.IP))+":"+strconv.Itoa(u.Port))
+	}
+
+	return strings.Join(out, ",")
+}
+
+func parseMuxAddrs(t string) []net.Addr {
+	var out []net.Addr
+	for _, x := range strings.Split(t, ",") {
+		f := strings.Split(x, ":")
+		b, _ := hex.DecodeString(f[0])
+		p, _ := strconv.Atoi(f[1])
+		out = append(out, &net.UDPAddr{IP: net.IP(b), Port: p})
+	}
+
+	return out
+}
+
+func genUDPMux(c *Ctx, fixed bool) []string {
+	r := c.Rng
+	nt := subset(c, []int{1, 2, 3, 4})
+	if r.Intn(6) == 0 {
+		nt = nil
+	}
+	pool := [][]byte{ip4(10, 0, 0, 5), ip4(192, 168, 7, 9), ip4(127, 0, 0, 1), ip6("2001:db8:5::5"), ip6("2001:db8:5::6"),
+		ip6("::1"), ip6("fd00::17"), ip6("fe80::55"), ip6("fec0::9")}
+	n := 1 + r.Intn(4)
+	var addrs []net.Addr
+	for k := 0; k < n; k++ {
+		ip := pool[r.Intn(len(pool))]
+		port := 7000 + r.Intn(3)
+		addrs = append(addrs, &net.UDPAddr{IP: net.IP(ip), Port: port})
+	}
+	mdns := r.Intn(4) == 0
+
+	return []string{"gudpmux", B(fixed), ints(nt), B(r.Intn(2) == 0), B(mdns), hx([]byte(mdnsName)), muxAddrsTok(addrs)}
+}
+
+func udpmuxCase(t []string) gcase {
+	if len(t) != 7 {
+		panic(fmt.Sprintf("bad gudpmux case (%d tokens)", len(t)))
+	}
+
+	return gcase{variant: "000", api: "o", ct: []int{1}, nt: unints(t[2]), lo: t[3] == "1", mdns: t[4] == "1",
+		iff: "-", ipf: "-", udpmux: parseMuxAddrs(t[6])}
+}
+
+func runUDPMux(c *Ctx, t []string) {
+	g := udpmuxCase(t)
+	c.Count("gudpmux")
+	if g.mdns {
+		c.Count("gudpmux:mdns")
+	}
+	obs, nontrivial := func() (obs []string, nontrivial bool) {
+		defer func() {
+			if r := recover(); r != nil {
+				obs, nontrivial = []string{"PANIC", hx([]byte(fmt.Sprint(r)))}, false
+			}
+		}()
+		a, env, err := newAgent(g)
+		if err != nil {
+			return []string{"NEWERR", hx([]byte(err.Error()))}, false
+		}
+		pub := &published{nilCh: make(chan struct{}, 4)}
+		if err := a.OnCandidate(pub.handler); err != nil {
+			return []string{"ONCANDERR"}, false
+		}
+		ret := a.GatherCandidates()
+		timedOut := false
+		if ret == nil {
+			select {
+			case <-pub.nilCh:
+			case <-time.After(15 * time.Second):
+				timedOut = true
+			}
+		}
+		st, _ := a.GetGatheringState()
+		loc, _ := a.GetLocalCandidates()
+		pub.mu.Lock()
+		pl := append([]ice.Candidate{}, pub.cands...)
+		nils := pub.nils
+		pub.mu.Unlock()
+		socks := ownSocks(env.net)
+		_ = a.Close()
+		obs = []string{errCode(ret), strconv.Itoa(int(st)), strconv.Itoa(nils)}
+		if timedOut {
+			obs[0] = "TIMEOUT"
+		}
+		obs = append(obs, ";", "P")
+		obs = append(obs, candToks(pl)...)
+		obs = append(obs, ";", "L")
+		obs = append(obs, candToks(loc)...)
+		obs = append(obs, ";", "S")
+		obs = append(obs, socks...)
+
+		return obs, len(pl) > 0
+	}()
+	tag := "gudpmux"
+	if g.mdns {
+		tag += ",mdns"
+	}
+	c.Emit(tag, t, obs, nontrivial)
+}
+
+// does the UDP-mux host gatherer skip listen addresses of a network type that is not enabled (the repaired code)?
+func detectUDPMuxFixed() bool {
+	g := gcase{variant: "000", api: "o", ct: []int{1}, nt: []int{1}, iff: "-", ipf: "-",
+		udpmux: []net.Addr{&net.UDPAddr{IP: net.IP(ip6("2001:db8:5::5")), Port: 7000}}}
 	a, _, err := newAgent(g)
 	if err != nil {
 		return true
